@@ -634,4 +634,13 @@ def r10_foreign_exceptions_pass_lookahead(a, tier):
     return rep
 
 
-RULES = [r1_action_on_success, r2_lookup_order, r3_failure_conversion, r4_transparency, r5_decorators, r6_per_parse_state, r7_nomemo_gate, r8_action_contract, r9_semantics_not_shared, r10_foreign_exceptions_pass_lookahead]
+def r11_calls_keep_their_rule(a, tier):
+    """every evaluation of a rule body calls that rule's action: the optimisation pass may not replace an invocation of a rule by an invocation
+    (or the body) of the rule it refers to (= C01.R13)"""
+    from .c01_optimizer import calls_keep_their_rule
+    rep = calls_keep_their_rule(a, 'C06.R11')
+    rep.text = '[= C01.R13] ' + rep.text
+    return rep
+
+
+RULES = [r1_action_on_success, r2_lookup_order, r3_failure_conversion, r4_transparency, r5_decorators, r6_per_parse_state, r7_nomemo_gate, r8_action_contract, r9_semantics_not_shared, r10_foreign_exceptions_pass_lookahead, r11_calls_keep_their_rule]
